@@ -137,7 +137,12 @@ fn shapes_case<T: Sc>(rng: &mut Rng, case: u64, out: &mut CaseOut, orders: usize
     let cols = if mrhs { cols } else { 1 };
     let m = rng.int(1, 3);
     let p = rng.int(1, 3);
-    let model = table(rng, n, m, p);
+    let mut model = table(rng, n, m, p);
+    if rng.chance(0.25) {
+        // a model that evaluates only once its parameters have been applied through set_params
+        model = ModelKind::Lazy(Box::new(model));
+        out.count("lazily_primed_models");
+    }
     let alpha0: Vec<f64> = (0..p).map(|_| rng.normal()).collect();
     let y = Mat::from_fn(rows, cols, |_, _| rng.normal() * 2.0);
     let wlen = match wsel {
@@ -354,7 +359,7 @@ fn threshold_case<T: Sc>(rng: &mut Rng, case: u64, out: &mut CaseOut) {
 }
 
 pub fn run(ctx: &Ctx) {
-    ctx.rule("shapes-and-orders: exhaustive grid model length 0..12 x Y rows 0..12 x columns 0..4 (1 for the single right-hand-side constructors) x weights {absent, len=rows, len=model length, other 0..13; values random / all exactly 1 / constant} x the four constructors (new, mrhs, new_parallel, mrhs_parallel), each with 3 (quick) / 8 (thorough) call orders (permutations of observations/weights/epsilon and repetitions whose earlier values must be overwritten), occasionally without any observations call; verdict Ok <=> the specification's set of violated requirements is empty, Err(kind) => kind in the set, and an InvalidLengthOfData error must carry the model's output length and the row count of the observations in effect; accepted problems: params() == model's initial parameters (bitwise), residuals/coefficients present, identical to an explicit set_params(initial), identical across call orders (bitwise, incl. weighted data). threshold: one-column model with singular value exactly s / one ulp above: epsilon(±s), no call (machine epsilon), repeated calls (last wins). non-trivial = accepted problems and rejections with exactly one violated requirement");
+    ctx.rule("shapes-and-orders: exhaustive grid model length 0..12 x Y rows 0..12 x columns 0..4 (1 for the single right-hand-side constructors) x weights {absent, len=rows, len=model length, other 0..13; values random / all exactly 1 / constant} x the four constructors (new, mrhs, new_parallel, mrhs_parallel), each with 3 (quick) / 8 (thorough) call orders (permutations of observations/weights/epsilon and repetitions whose earlier values must be overwritten), occasionally without any observations call; verdict Ok <=> the specification's set of violated requirements is empty, Err(kind) => kind in the set, and an InvalidLengthOfData error must carry the model's output length and the row count of the observations in effect; a quarter of the models evaluate only after their set_params has been called once (lazily primed); accepted problems: params() == model's initial parameters (bitwise), residuals/coefficients present, identical to an explicit set_params(initial), identical across call orders (bitwise, incl. weighted data). threshold: one-column model with singular value exactly s / one ulp above: epsilon(±s), no call (machine epsilon), repeated calls (last wins). non-trivial = accepted problems and rejections with exactly one violated requirement");
     *ctx.exhaustive.lock().unwrap() = Some(true);
     let t = ctx.tier;
     let orders = t.pick(3, 16);
